@@ -6,31 +6,44 @@ history, and after close + re-open in every mode, the real store's membership, e
 member's checksum equal those of the dictionary model; an operation on one identifier changes no other record;
 append mode never overwrites; read-only mode never mutates.
 
-Where the statement leaves behaviour open the model is a *set* of permitted successor states (see ``spec_step``):
+Where the statement leaves behaviour open the model is a *set* of permitted successor states (``spec_step``):
 a mutator may be refused (exception or silent no-op) in read-only mode and where append mode would have to
 overwrite; writing a not-completed record for an id that is already completed may replace the completed record, sit
-beside it, or be refused -- but it may never alter the completed record's content.  Which exception is raised is
-never checked; only the resulting state is.
+beside it, or be refused -- but it may never alter the completed record.  Which exception is raised, and whether
+one is raised at all, is never checked: only the resulting state is.  Log records: see ``logs_ok``.
+
+Two contracts: ``history`` drives the store API directly (DataStoreDirectory, DataStoreSqlite); ``writers`` drives
+the same model through the io.py writer apps (write_seqs / write_json -> directory store, write_db -> sqlite store,
+stores made by io.open_data_store), where the content is compared through an independent decoding of what the
+writer stored (own FASTA reader, or the unique payload token of each write).
 """
 from __future__ import annotations
 
 import contextlib
 import hashlib
 import itertools
-import json
 import os
 import random
 import shutil
 import tempfile
 from pathlib import Path
 
-SUFFIX = "fa"
 # names that are suffixes / prefixes of one another, with and without the format suffix, plus an unrelated control
 IDS = ["a", "ba", "a.b", "a.fa", "b"]
 EXTRA_IDS = ["a.1", "a.2", "aa", "b.a", "ab.fa", "a.b.fa"]  # only in the seeded sample beyond the frontier
+WRITER_IDS = ["a", "ba", "a.b", "a.1", "b"]
 LOGS = ["run1.log", "run2.log"]
 MODES = ["r", "a", "w"]
 _TMPROOT = "/dev/shm" if os.path.isdir("/dev/shm") and os.access("/dev/shm", os.W_OK) else None
+
+# via -> (store kind, suffix of the directory store)
+BACKENDS = {
+    "dir": ("dir", "fa"),
+    "sql": ("sql", None),
+    "write_seqs": ("dir", "fasta"),
+    "write_json": ("dir", "json"),
+    "write_db": ("sql", None),
+}
 
 
 # ------------------------------------------------------------------------------------------------ spec
@@ -38,11 +51,12 @@ def md5_spec(data):
     return hashlib.md5(data.encode("utf-8") if isinstance(data, str) else data).hexdigest()
 
 
-def canon(kind, uid):
+def canon(via, uid):
     """the record an identifier names: a directory store of suffix ``fa`` accepts ``x`` and ``x.fa`` for the same
     record; a sqlite store uses the identifier literally"""
-    if kind == "dir" and uid.endswith("." + SUFFIX):
-        return uid[: -len(SUFFIX) - 1]
+    kind, suffix = BACKENDS[via]
+    if kind == "dir" and uid.endswith("." + suffix):
+        return uid[: -len(suffix) - 1]
     return uid
 
 
@@ -58,17 +72,17 @@ def _without(d, k):
     return d
 
 
-def spec_step(kind, mode, state, op, data):
-    """permitted successor states (completed, not_completed, logs) of the dictionary model; the first entry is the
-    one used to describe a disagreement.  ``logs`` entry ``None`` in the result means 'see log rule in the contract'."""
-    C, N, L = state
-    same = (C, N, L)
+def spec_step(via, mode, state, op, data):
+    """permitted successor states (completed, not_completed) of the dictionary model"""
+    C, N = state
+    same = (C, N)
     k = op[0]
-    if k == "o" or mode == "r":
-        return [same]                                   # re-open persists; read-only never mutates
+    if k in ("o", "l") or mode == "r":
+        return [same]                                   # re-open persists; a log write touches no member;
+                                                        # read-only never mutates
     if k == "w":
-        i = canon(kind, op[1])
-        eff = (_with(C, i, data), _without(N, i), L)    # last write wins, a success replaces the not-completed
+        i = canon(via, op[1])
+        eff = (_with(C, i, data), _without(N, i))       # last write wins, a success replaces the not-completed
         if mode == "w":
             return [eff]
         if i in C:
@@ -77,37 +91,90 @@ def spec_step(kind, mode, state, op, data):
             return [eff, same]                          # replacing a failure by a success, or refusing: both allowed
         return [eff]
     if k == "n":
-        i = canon(kind, op[1])
-        moved = (_without(C, i), _with(N, i, data), L)
-        both = (C, _with(N, i, data), L)
+        i = canon(via, op[1])
+        moved = (_without(C, i), _with(N, i, data))
+        both = (C, _with(N, i, data))
         if mode == "w":
             if i in C:
-                return [moved, both, same]              # open in the statement; the completed content must survive
-            return [both]
+                return [both, moved, same]              # open in the statement; the completed record must survive
+            return [both]                               # unchanged, or go away as a whole
         if i in N:
             return [same]                               # append never overwrites
         if i in C:
             return [both, same]
         return [both]
     if k == "d":
-        return [(C, _without(N, canon(kind, op[1])), L)]
+        return [(C, _without(N, canon(via, op[1])))]
     if k == "D":
-        return [(C, {}, L)]
-    if k == "l":
-        return [(C, N, None)]
+        return [(C, {})]
     raise ValueError(op)
 
 
-def logs_ok(mode, before, after, name, data):
-    """log records: the log just written reads back; any other log is either untouched or (one-log-per-session
-    stores) gone -- never altered.  The property statement compares completed / not-completed members only, so
-    nothing more is demanded of a log write.  In append mode an existing log may also be kept as it was."""
-    for k, v in after.items():
-        if k != name and before.get(k) != v:
+def logs_ok(op, mode, before, after, data):
+    """log records, as sorted lists of [name, content].  The property statement compares completed and
+    not-completed members only, so little is demanded of a log write: a non-log operation (and a refused log write
+    in read-only mode) leaves the log records exactly as they were; write_log(name) under a *new* name makes that
+    name readable with the data written; it never alters the content of a log of another name (a store that keeps
+    one log per session may drop the session's earlier log); what happens to an existing log of the same name is
+    left open."""
+    if op[0] != "l" or mode == "r":
+        return before == after
+    name = op[1]
+    old = {}
+    for n, c in before:
+        old.setdefault(n, []).append(c)
+    for n, c in after:
+        if n != name and c not in old.get(n, []):
             return False
-    if after.get(name) == data:
-        return True
-    return mode == "a" and name in before and after.get(name) == before[name]
+    if name not in old:
+        return [n for n, _ in after].count(name) == 1 and [name, data] in after
+    return True
+
+
+# ------------------------------------------------------------------------------------------------ payloads
+def token_for(step, op):
+    """a payload token unique to one step of a history (fixed width: no token is a substring of another)"""
+    if op[0] == "w":
+        return "ACGTTG" + "".join("ACGT"[(step >> s) & 3] for s in (4, 2, 0)) + "CA"
+    if op[0] == "n":
+        return f"failure-{step:03d}-end"
+    return None
+
+
+def data_for(via, step, op):
+    """what the model records for a write: the text itself (store API) or the payload token (writer apps)"""
+    if via in ("dir", "sql"):
+        tag = {"w": "C", "n": "N", "l": "L"}.get(op[0])
+        return None if tag is None else f"{tag}{step}:{op[1]}\nline2\n"
+    return token_for(step, op)
+
+
+def read_fasta_spec(text):
+    """own minimal FASTA reader"""
+    out, name = {}, None
+    for line in text.splitlines():
+        if line.startswith(">"):
+            name = line[1:].strip()
+            out[name] = ""
+        elif name is not None:
+            out[name] += line.strip()
+    return out
+
+
+def decode(via, what, raw, tokens):
+    """content as the model sees it: the raw text (store API), or the token of the write a record stems from"""
+    if via in ("dir", "sql"):
+        return raw
+    if via == "write_seqs" and what == "completed":
+        if isinstance(raw, str):
+            d = read_fasta_spec(raw)
+            if sorted(d) == ["s1", "s2"] and d["s2"] == "GGCC":
+                return d["s1"]
+        return f"<not the FASTA written: {raw!r}>"
+    found = [t for t in tokens if (t.encode() if isinstance(raw, bytes) else t) in raw]
+    if len(found) == 1:
+        return found[0]
+    return f"<payloads {found} in {raw!r}>"
 
 
 # ------------------------------------------------------------------------------------------------ real store
@@ -124,46 +191,56 @@ def as_master_process():
         dsm.is_master_process = old
 
 
-def open_store(kind, root, mode):
-    if kind == "dir":
+def open_store(via, root, mode):
+    kind, suffix = BACKENDS[via]
+    if via == "dir":
         from cogent3.app.data_store import DataStoreDirectory
-        return DataStoreDirectory(Path(root) / "store", mode=mode, suffix=SUFFIX)
-    from cogent3.app.sqlite_data_store import DataStoreSqlite
-    ds = DataStoreSqlite(Path(root) / "store.sqlitedb", mode=mode)
+        return DataStoreDirectory(Path(root) / "store", mode=mode, suffix=suffix)
+    if via == "sql":
+        from cogent3.app.sqlite_data_store import DataStoreSqlite
+        ds = DataStoreSqlite(Path(root) / "store.sqlitedb", mode=mode)
+    else:
+        from cogent3.app.io import open_data_store
+        if kind == "dir":
+            return open_data_store(Path(root) / "store", suffix=suffix, mode=mode)
+        ds = open_data_store(Path(root) / "store.sqlitedb", mode=mode)
     ds.db  # connect now (creates the file in w/a mode)
     return ds
 
 
-def close_store(kind, ds):
-    if kind == "sql":
+def close_store(via, ds):
+    if BACKENDS[via][0] == "sql":
         ds.unlock()   # a well-behaved session releases its lock; locking is not part of C13
         ds.close()
 
 
-def real_view(kind, ds):
-    """(completed, not_completed, logs, problems): id -> [content, md5]; logs: name -> content"""
+def real_view(via, ds, tokens):
+    """(completed, not_completed, logs, problems); members: id -> [decoded content, checksum is md5 of content]"""
+    kind, suffix = BACKENDS[via]
     problems = []
 
     def table(members, what):
         out = {}
         for m in list(members):
-            uid = str(m.unique_id)
-            name = Path(uid).name
+            name = Path(str(m.unique_id)).name
             if kind == "dir":
-                sfx = "." + SUFFIX if what == "completed" else ".json"
+                sfx = "." + suffix if what == "completed" else ".json"
                 if name.endswith(sfx):
                     name = name[: -len(sfx)]
                 else:
                     problems.append(f"{what}:member-without-suffix")
             if name in out:
                 problems.append(f"{what}:duplicate-member")
+            raw = None
             try:
-                content = m.read()
+                raw = m.read()
+                content = decode(via, what, raw, tokens)
             except Exception as e:
                 content = f"<read raises {type(e).__name__}>"
                 problems.append(f"{what}:read-raises")
             try:
                 md5 = m.md5
+                md5 = True if raw is not None and md5 == md5_spec(raw) else md5
             except Exception as e:
                 md5 = f"<md5 raises {type(e).__name__}>"
                 problems.append(f"{what}:md5-raises")
@@ -172,49 +249,59 @@ def real_view(kind, ds):
 
     C = table(ds.completed, "completed")
     N = table(ds.not_completed, "not_completed")
-    L = {}
+    L = []
     for m in ds.logs:
         name = Path(str(m.unique_id)).name
-        if name in L:
-            problems.append("logs:duplicate-member")
         try:
-            L[name] = m.read()
+            L.append([name, m.read()])
         except Exception as e:
-            L[name] = f"<read raises {type(e).__name__}>"
+            L.append([name, f"<read raises {type(e).__name__}>"])
             problems.append("logs:read-raises")
-    return C, N, L, sorted(set(problems))
+    return C, N, sorted(L), sorted(set(problems))
 
 
-def apply_real(ds, op, data):
+def apply_real(via, ds, op, step, writer):
     k = op[0]
+    if k == "l":
+        return ds.write_log(unique_id=op[1], data=data_for("dir", step, op))
+    if k == "d":
+        return ds.drop_not_completed(unique_id=op[1])
+    if k == "D":
+        return ds.drop_not_completed()
+    if via in ("dir", "sql"):
+        if k == "w":
+            return ds.write(unique_id=op[1], data=data_for(via, step, op))
+        if k == "n":
+            return ds.write_not_completed(unique_id=op[1], data=data_for(via, step, op))
+        raise ValueError(op)
+    # through the writer apps, called the way composable.apply_to calls them
     if k == "w":
-        ds.write(unique_id=op[1], data=data)
+        from cogent3 import make_unaligned_seqs
+        obj = make_unaligned_seqs({"s1": token_for(step, op), "s2": "GGCC"}, moltype="dna")
     elif k == "n":
-        ds.write_not_completed(unique_id=op[1], data=data)
-    elif k == "l":
-        ds.write_log(unique_id=op[1], data=data)
-    elif k == "d":
-        ds.drop_not_completed(unique_id=op[1])
-    elif k == "D":
-        ds.drop_not_completed()
+        from cogent3.app.composable import NotCompleted
+        obj = NotCompleted("ERROR", "origin", token_for(step, op), source=op[1])
     else:
         raise ValueError(op)
+    return writer.main(data=obj, identifier=op[1])
+
+
+def make_writer(via, ds):
+    if via in ("dir", "sql"):
+        return None
+    from cogent3.app import io
+    return getattr(io, via)(data_store=ds)
 
 
 OPNAME = {"w": "write", "n": "write_not_completed", "l": "write_log", "d": "drop_not_completed(id)",
           "D": "drop_not_completed()", "o": "reopen"}
 
 
-def data_for(step, op):
-    tag = {"w": "C", "n": "N", "l": "L"}.get(op[0])
-    return None if tag is None else f"{tag}{step}:{op[1]}\nline2\n"
-
-
-def relation(kind, op, other):
+def relation(via, op, other):
     """how the affected record's id relates to the id the operation names (witness pattern for the key)"""
     if len(op) < 2 or op[0] in ("o", "l"):
         return "any"
-    u = canon(kind, op[1])
+    u = canon(via, op[1])
     if other == u:
         return "self"
     if other.endswith(u):
@@ -231,122 +318,139 @@ def relation(kind, op, other):
 
 
 def expected_table(d):
-    return {k: [v, md5_spec(v)] for k, v in d.items()}
+    return {k: [v, True] for k, v in d.items()}
 
 
-def diff_tables(kind, op, got, want, what):
+def diff_tables(via, op, got, want, what, present):
     out = []
     for k in sorted(set(got) | set(want)):
-        rel = relation(kind, op, k)
+        rel = relation(via, op, k)
         if k not in got:
-            out.append(f"{what}:lost:{rel}")
+            d = f"{what}:lost:{rel}"
         elif k not in want:
-            out.append(f"{what}:unexpected:{rel}")
+            d = f"{what}:unexpected:{rel}"
         elif got[k][0] != want[k][0]:
-            out.append(f"{what}:content:{rel}")
+            d = f"{what}:content:{rel}"
         elif got[k][1] != want[k][1]:
-            out.append(f"{what}:md5:{rel}")
+            d = f"{what}:md5:{rel}"
+        else:
+            continue
+        if rel == "self" and k not in got:   # the record the operation names is absent: say which related
+            # records were there (a collision of names)
+            near = sorted({relation(via, op, p) for p in present} - {"self", "other(unrelated)"})
+            if near:
+                d += "[beside:" + ",".join(near) + "]"
+        out.append(d)
     return out
 
 
-def snippet(kind, hist):
+def snippet(via, hist):
     """python lines that replay a history natively"""
-    mk = ("DataStoreDirectory(p, mode={m!r}, suffix='fa')" if kind == "dir" else "DataStoreSqlite(p, mode={m!r})")
-    lines = [f"ds = {mk.format(m='w')}"]
+    kind, suffix = BACKENDS[via]
+    if via == "dir":
+        mk = "DataStoreDirectory(p, mode={m!r}, suffix='fa')"
+    elif via == "sql":
+        mk = "DataStoreSqlite(p, mode={m!r})"
+    elif kind == "dir":
+        mk = f"open_data_store(p, suffix={suffix!r}, mode={{m!r}})"
+    else:
+        mk = "open_data_store('p.sqlitedb', mode={m!r})"
+    wr = "" if via in ("dir", "sql") else f"; w = {via}(data_store=ds)"
+    lines = [f"ds = {mk.format(m='w')}{wr}"]
     for step, op in enumerate(hist):
-        d = data_for(step, op)
+        d = data_for(via, step, op)
         k = op[0]
         if k == "o":
-            lines.append(("ds.unlock(); ds.close(); " if kind == "sql" else "") + f"ds = {mk.format(m=op[1])}")
-        elif k == "w":
-            lines.append(f"ds.write(unique_id={op[1]!r}, data={d!r})")
-        elif k == "n":
-            lines.append(f"ds.write_not_completed(unique_id={op[1]!r}, data={d!r})")
+            lines.append(("ds.unlock(); ds.close(); " if kind == "sql" else "") + f"ds = {mk.format(m=op[1])}{wr}")
         elif k == "l":
-            lines.append(f"ds.write_log(unique_id={op[1]!r}, data={d!r})")
+            lines.append(f"ds.write_log(unique_id={op[1]!r}, data={data_for('dir', step, op)!r})")
         elif k == "d":
             lines.append(f"ds.drop_not_completed(unique_id={op[1]!r})")
-        else:
+        elif k == "D":
             lines.append("ds.drop_not_completed()")
+        elif via in ("dir", "sql"):
+            meth = "write" if k == "w" else "write_not_completed"
+            lines.append(f"ds.{meth}(unique_id={op[1]!r}, data={d!r})")
+        elif k == "w":
+            lines.append(f"w.main(data=make_unaligned_seqs({{'s1': {d!r}, 's2': 'GGCC'}}, moltype='dna'), "
+                         f"identifier={op[1]!r})")
+        else:
+            lines.append(f"w.main(data=NotCompleted('ERROR', 'origin', {d!r}, source={op[1]!r}), identifier={op[1]!r})")
     return "; ".join(lines)
 
 
-def run_history(kind, hist, final_reopen=True):
-    """returns None or (key, message)"""
+def run_history(via, hist, first_mode="w"):
+    """None, or (key, message) for the first step after which the real view is not a permitted model state"""
     root = tempfile.mkdtemp(prefix="c13_", dir=_TMPROOT)
     ds = None
+    kind = BACKENDS[via][0]
+    steps = list(hist) + [["o", "r"]]                   # every history ends with close + re-open read-only
+    tokens = [t for t in (token_for(s, o) for s, o in enumerate(steps)) if t]
     try:
         with as_master_process():
-            mode = "w"
-            ds = open_store(kind, root, mode)
-            state = ({}, {}, {})
-            steps = list(hist) + ([["o", "r"]] if final_reopen else [])
+            mode = first_mode
+            ds = open_store(via, root, mode)
+            writer = make_writer(via, ds)
+            state = ({}, {})
+            logs = []
             for step, op in enumerate(steps):
                 final = step >= len(hist)
                 k = op[0]
-                data = data_for(step, op)
-                C0, N0, L0 = state
-                pre = ("C" if len(op) > 1 and k in "wnd" and canon(kind, op[1]) in C0 else "") + \
-                      ("N" if len(op) > 1 and k in "wnd" and canon(kind, op[1]) in N0 else "")
-                where = f"{kind}/{mode}/{OPNAME[k]}" + (f"({op[1]})" if k == "o" else "") + \
-                        ("[final]" if final else "") + (f"/pre={pre or '-'}" if k in "wnd" else "")
+                data = data_for(via, step, op)
+                C0, N0 = state
+                where = f"{via}/{mode}/{OPNAME[k]}" + (f"({op[1]})" if k == "o" else "") + ("[final]" if final else "")
                 exc = None
+                new_mode = mode
                 try:
                     if k == "o":
-                        close_store(kind, ds)
+                        close_store(via, ds)
                         ds = None
-                        ds = open_store(kind, root, op[1])
+                        ds = open_store(via, root, op[1])
+                        writer = make_writer(via, ds)
                         new_mode = op[1]
                     else:
-                        apply_real(ds, op, data)
-                        new_mode = mode
+                        apply_real(via, ds, op, step, writer)
                 except Exception as e:
                     exc = e
-                    new_mode = mode
                     if ds is None:
                         return (f"{where}/cannot-reopen:{type(e).__name__}",
-                                f"{snippet(kind, steps[:step + 1])}  -> {type(e).__name__}: {e}")
-                allowed = spec_step(kind, mode, state, op, data)
+                                f"{snippet(via, steps[:step + 1])}  -> {type(e).__name__}: {e}")
+                allowed = spec_step(via, mode, state, op, data)
                 try:
-                    gC, gN, gL, problems = real_view(kind, ds)
+                    gC, gN, gL, problems = real_view(via, ds, tokens)
                 except Exception as e:
                     return (f"{where}/view-raises:{type(e).__name__}",
-                            f"{snippet(kind, steps[:step + 1])}  -> reading completed/not_completed/logs raises "
+                            f"{snippet(via, steps[:step + 1])}  -> reading completed/not_completed/logs raises "
                             f"{type(e).__name__}: {e}" + (f" (the operation itself raised {exc!r})" if exc else ""))
+                log_fine = logs_ok(op, mode, logs, gL, data_for("dir", step, op))
                 matched = None
-                for (aC, aN, aL) in allowed:
+                for (aC, aN) in allowed:
                     if gC == expected_table(aC) and gN == expected_table(aN):
-                        if aL is None:
-                            if not logs_ok(mode, L0, gL, op[1], data):
-                                continue
-                            aL = gL
-                        elif gL != aL:
-                            continue
-                        matched = (aC, aN, dict(aL))
+                        matched = (aC, aN)
                         break
-                if matched is None or problems:
+                if matched is None or problems or not log_fine:
                     best = None
-                    for (aC, aN, aL) in allowed:   # describe the disagreement against the closest permitted state
-                        d = diff_tables(kind, op, gC, expected_table(aC), "completed") + \
-                            diff_tables(kind, op, gN, expected_table(aN), "not_completed")
-                        if aL is None:
-                            if not logs_ok(mode, L0, gL, op[1], data):
-                                d.append("logs:written-log-wrong-or-other-log-altered")
-                        elif gL != aL:
-                            d.append("logs:changed-by-non-log-operation")
+                    present = set(C0) | set(N0)
+                    for (aC, aN) in allowed:   # describe the disagreement against the closest permitted state
+                        d = diff_tables(via, op, gC, expected_table(aC), "completed", present) + \
+                            diff_tables(via, op, gN, expected_table(aN), "not_completed", present)
                         if best is None or len(d) < len(best[0]):
-                            best = (d, aC, aN, aL)
-                    diffs, aC, aN, aL = best
+                            best = (d, aC, aN)
+                    diffs, aC, aN = best
+                    if not log_fine:
+                        diffs.append("logs:new-log-not-readable-or-other-log-altered" if k == "l" and mode != "r"
+                                     else "logs:changed-by-non-log-operation")
                     diffs = sorted(set(diffs)) + problems
                     key = f"{where}/" + "+".join(diffs) + (f"/raised:{type(exc).__name__}" if exc else "")
-                    msg = (f"{snippet(kind, steps[:step + 1])}  -> completed={gC} not_completed={gN} logs={gL}; "
+                    msg = (f"{snippet(via, steps[:step + 1])}  -> completed={gC} not_completed={gN} logs={gL}; "
                            f"dictionary model (mode {mode}): completed={expected_table(aC)} "
-                           f"not_completed={expected_table(aN)}"
-                           + (f" logs={aL}" if aL is not None else "")
+                           f"not_completed={expected_table(aN)} logs before={logs}"
                            + (f" [{len(allowed)} permitted outcomes, none matches]" if len(allowed) > 1 else "")
-                           + (f"; the call raised {type(exc).__name__}: {exc}" if exc else ""))
+                           + (f"; the call raised {type(exc).__name__}: {exc}" if exc else "")
+                           + " (content shown as decoded payload; md5 True = checksum equals md5 of the content)")
                     return key, msg
                 state = matched
+                logs = gL
                 mode = new_mode
         return None
     finally:
@@ -359,10 +463,11 @@ def run_history(kind, hist, final_reopen=True):
 
 
 # ------------------------------------------------------------------------------------------------ histories
-def alphabet(ids, logs=LOGS, drops=None):
+def alphabet(ids, logs=LOGS, drops=None, modes=MODES):
     drops = ids if drops is None else drops
-    ops = [["w", i] for i in ids] + [["n", i] for i in ids] + [["d", i] for i in drops] + [["D"]]
-    ops += [["l", j] for j in logs] + [["o", m] for m in MODES]
+    ops = [["w", i] for i in ids] + [["n", i] for i in ids] + [["d", i] for i in drops]
+    ops += [["D"]] if drops else []
+    ops += [["l", j] for j in logs] + [["o", m] for m in modes]
     return ops
 
 
@@ -371,47 +476,71 @@ def gen_history(tier, seed):
     thorough = tier == "thorough"
     full = alphabet(IDS)
     small = alphabet(["a", "ba", "a.b"], logs=LOGS[:1], drops=["a"])
-    for kind in ("dir", "sql"):
+    wide = alphabet(IDS + EXTRA_IDS)
+    for via in ("dir", "sql"):
         # exhaustive over the full alphabet
         for n in range(1, (4 if thorough else 3) + 1):
             for h in itertools.product(full, repeat=n):
-                yield [kind, list(h)]
+                yield [via, list(h)]
         # one step deeper over the reduced alphabet (the ids that are suffix / dotted-prefix of one another)
-        n = 5 if thorough else 4
-        for h in itertools.product(small, repeat=n):
-            yield [kind, list(h)]
+        for h in itertools.product(small, repeat=5 if thorough else 4):
+            yield [via, list(h)]
         # seeded sample beyond the frontier: longer histories, more identifiers
-        wide = alphabet(IDS + EXTRA_IDS)
         for _ in range(6000 if thorough else 300):
             n = rnd.randint(5, 8) if thorough else rnd.randint(4, 6)
-            yield [kind, [rnd.choice(wide if rnd.random() < 0.5 else full) for _ in range(n)]]
+            yield [via, [rnd.choice(wide if rnd.random() < 0.5 else full) for _ in range(n)]]
+
+
+def gen_writers(tier, seed):
+    rnd = random.Random(seed + 1)
+    thorough = tier == "thorough"
+    ops = alphabet(WRITER_IDS, logs=[], drops=[])
+    for via in ("write_seqs", "write_json", "write_db"):
+        for n in range(1, (4 if thorough else 3) + 1):
+            for h in itertools.product(ops, repeat=n):
+                yield [via, list(h)]
+        for _ in range(1500 if thorough else 150):
+            n = rnd.randint(5, 7) if thorough else rnd.randint(4, 5)
+            yield [via, [rnd.choice(ops) for _ in range(n)]]
 
 
 def contract_history(case):
-    kind, hist = case[0], [list(op) for op in case[1]]
-    res = run_history(kind, hist)
+    via, hist = case[0], [list(op) for op in case[1]]
+    res = run_history(via, hist)
     if res is not None:
         return ("fail", res[0], res[1])
-    muts = sum(1 for op in hist if op[0] != "o")
-    return ("ok", muts >= 1)
+    return ("ok", any(op[0] != "o" for op in hist))
 
 
+_FUNCS = ["write", "write_not_completed", "write_log", "drop_not_completed", "completed", "not_completed", "logs",
+          "read", "md5", "__init__ (modes r/a/w)"]
 BOUNDED = {
     "history": {
         "gen": gen_history, "contract": contract_history,
-        "functions": ["DataStoreDirectory.write", "DataStoreDirectory.write_not_completed",
-                      "DataStoreDirectory.write_log", "DataStoreDirectory.drop_not_completed",
-                      "DataStoreDirectory.completed/not_completed/logs/read/md5", "DataStoreDirectory.__init__ (r/a/w)",
-                      "DataStoreSqlite.write", "DataStoreSqlite.write_not_completed", "DataStoreSqlite.write_log",
-                      "DataStoreSqlite.drop_not_completed", "DataStoreSqlite.completed/not_completed/logs/read/md5",
-                      "DataStoreSqlite.close + __init__ (r/a/w)", "DataStoreABC._check_writable"],
+        "functions": [f"DataStoreDirectory.{f}" for f in _FUNCS] + [f"DataStoreSqlite.{f}" for f in _FUNCS] +
+                     ["DataStoreSqlite.close", "DataStoreABC._check_writable", "DataStoreDirectory.__contains__",
+                      "DataMember.read", "DataMember.md5"],
         "bound": "both stores, opened in mode w; every history of length <=3 (thorough <=4) over {write(i), "
                  "write_not_completed(i), drop_not_completed(i), drop_not_completed(), write_log(run1.log|run2.log), "
-                 "close+reopen(r|a|w)} with i in {a, ba, a.b, a.fa, b}; every history of length 4 (thorough 5) over "
-                 "the reduced alphabet i in {a, ba, a.b}; seeded sample of length 4-6 (thorough 5-8) with 6 more ids; "
-                 "each history ends with a re-open in mode r; view compared after every step",
-        "rule": "a case = (store kind, history); the view (completed, not_completed: id -> content, md5; logs) is "
-                "compared with the set of states the dictionary model permits after every operation; non-trivial "
+                 "close+reopen(r|a|w)} with i in {a, ba, a.b, a.fa, b} (21 operations); every history of length 4 "
+                 "(thorough 5) over the reduced alphabet i in {a, ba, a.b}, drop(a), one log (12 operations); seeded "
+                 "sample of length 4-6 (thorough 5-8) with 6 more ids; every history ends with close + re-open in "
+                 "mode r; the view is compared after every step",
+        "rule": "a case = (store kind, history); the view (completed, not_completed: id -> content, checksum; logs) "
+                "is compared with the set of states the dictionary model permits after every operation; non-trivial "
                 "when the history has at least one mutator; distinct by hash of the case",
+    },
+    "writers": {
+        "gen": gen_writers, "contract": contract_history,
+        "functions": ["io.open_data_store", "io.write_seqs.main", "io.write_json.main", "io.write_db.main",
+                      "DataStoreDirectory.write/write_not_completed (ids as the writers pass them, '<id>.json')",
+                      "DataStoreSqlite.write/write_not_completed"],
+        "bound": "write_seqs -> directory store (fasta), write_json -> directory store (json), write_db -> sqlite "
+                 "store; every history of length <=3 (thorough <=4) over {main(seqs, identifier=i), "
+                 "main(NotCompleted, identifier=i), close+reopen(r|a|w)} with i in {a, ba, a.b, a.1, b} (13 "
+                 "operations); seeded sample of length 4-5 (thorough 5-7); final re-open in mode r",
+        "rule": "a case = (writer, history); same dictionary model as 'history'; content is decoded independently "
+                "(own FASTA reader / unique payload token per write); non-trivial when the history has at least one "
+                "write; distinct by hash of the case",
     },
 }
